@@ -131,6 +131,16 @@ def derive_hints(p):
     return [h for _, h in sorted(hints)]
 
 
+def trailing_dequeue(p):
+    """the run ended (budget) while some thread's last step was a dequeue point (help.central / help.rings / help.token / worker)"""
+    if p['status'] != 2:
+        return False
+    last = {}
+    for t, code in p['steps']:
+        last[t] = code // 64
+    return any(site in (30, 31, 32, 43) for site in last.values())
+
+
 def kids_of(c, i):
     return [j for j, s in enumerate(c['sets']) if s[3] == i]
 
@@ -283,7 +293,7 @@ def depthcap_probes():
         ops = [('s', 0, 1, 0, [])] * 4 + [('s', 0, 0, 0, []), ('s', 0, 0, 1, []), ('b', 0, 0, 2, []), ('w', 0)]
         out.append({'budget': 120, 'nthr': 1, 'plf': 32, 'wr': 0, 'sets': [(conc, heavy, 1, -1, 0)], 'threads': [(0, 32, ops)], 'sched': [0] * 120})
         out.append({'budget': 120, 'nthr': 1, 'plf': 32, 'wr': 0, 'sets': [(conc, heavy, 1, -1, 0)], 'threads': [(1, 32, ops), (1, 0, [('k',)] * 3)],
-                    'sched': [0] * 8 + [1] * 6 + [0] * 106})
+                    'sched': [0] * 8 + [1] * 6 + [0, 1] * 53})
     return out
 
 
@@ -551,10 +561,16 @@ def lockstep_phase(ctx, exe, judge, flavours, n, witnesses=(), on_verdict=None, 
         if v in (2, 4):
             on_verdict(v, c, p, o)
         elif v == 1:
+            if trailing_dequeue(p):
+                # a thread was never scheduled again after a dequeue point: which task it took is not observable, the model cannot be driven to the same choice.
+                # Inconclusive (like an exhausted budget), never a failure.
+                ctx.cov['inconclusive_trailing_dequeue'] = ctx.cov.get('inconclusive_trailing_dequeue', 0) + 1
+                hist[1] -= 1
+                continue
             ctx.broken.append('correspondence L: real trace differs from the model on ' + case_line(c)[:300] + ' -> ' + o[:300])
     # search ladder (DESIGN 5): model and implementation disagree but no property failure seen yet -> re-run the disagreeing programs under many more
     # schedules (fixed-priority, bursty, random) looking for a concrete failing input
-    differ = [c for c, p, o, v in res if v == 1]
+    differ = [c for c, p, o, v in res if v == 1 and not trailing_dequeue(p)]
     if differ and not any(v == 2 for _, _, _, v in res):
         extra = []
         for c in differ[:6]:
